@@ -5,6 +5,8 @@ import Oracle.Util
    The schedule is run on the interleaving machine with the orders extracted from the source (Cfg.real); then
    pending rotations (by stream) and queries (by id) are completed, and a final records query and a final
    count query are run at quiescence.
+   c11w ssr | c11w reader → ok | lost | crash   (the read of one request with the rotation inside a check-then-look-up
+   window; Model/Conc.lean, namespace ReadOne)
    suite "concstress":  c11stress <seed> <procs> <ms> <indexes> <race> → "ok" (exploration: the model has no
    opinion on timing; the worker checks the property statement directly). -/
 namespace Oracle.C11
@@ -113,9 +115,22 @@ def stress (args : List String) : String :=
     if procs < 1 || procs > 64 || ms < 1 || ms > 120000 || nidx < 1 || nidx > 4 || race > 1 then "bad-op" else "ok"
   | _ => "bad-op"
 
+/-- `c11w ssr` / `c11w reader`: the read of one request (ReadOne) with the whole rotation of its segment between
+the check of GetSSRsFromQSR and its look-up (ssr), resp. between the check of initNewMultiColumnReader and its
+look-up (reader) → what happens to the segment's events -/
+def window (args : List String) : String :=
+  let showOut : Option ReadOne.Outcome → String
+    | some .readUnrotated => "ok" | some .readRotated => "ok" | some .skipped => "lost" | some .crashed => "crash"
+    | none => "unfinished"
+  match args with
+  | ["ssr"] => showOut (ReadOne.rrun false {} [.read, .rot, .rot, .rot, .rot, .read, .read, .read]).outcome
+  | ["reader"] => showOut (ReadOne.rrun false {} [.read, .read, .read, .rot, .rot, .rot, .rot, .read]).outcome
+  | _ => "bad-op"
+
 def handle (cmd : String) (args : List String) : Option String :=
   match cmd with
   | "c11" => some (conc args)
+  | "c11w" => some (window args)
   | "c11stress" => some (stress args)
   | _ => none
 end Oracle.C11
